@@ -336,6 +336,8 @@ def run_check(prop, tier, seed, runs=None, workers=None, wall_cap=None, write_ev
     n_viol_runs = sum(1 for s in ok_runs if s['violations'])
     reported, known_lines = [], []
     exit_code = 0
+    not_reproduced, last_kind = 0, None
+    unverified = []
     total_min_budget = float(cfg.get('min_budget_total', 100))     # wall budget for minimising, over all kinds
     t_min0 = time.monotonic()
     # kinds seen in most runs first; only the first three unknown kinds get a replay file, the rest is listed
@@ -346,8 +348,14 @@ def run_check(prop, tier, seed, runs=None, workers=None, wall_cap=None, write_ev
             case = mod.gen(rng_for(seed, prop, i), tier, i)
             res = execute_guarded(mod, case)
             if not same_violation(res, kind):
-                harness_errors.append(f'run {i}: violation {kind} did not reproduce in the parent (nondeterminism)')
-                break
+                # the same case gave another outcome in another process: either the harness is nondeterministic (the self-test
+                # says it is not) or the library carries state from one object / run to the next; other runs of the kind are tried
+                not_reproduced = not_reproduced + 1 if kind == last_kind else 1
+                last_kind = kind
+                if not_reproduced >= 8 or i == idxs[-1]:
+                    unverified.append(f'kind {kind} run {i}: did not reproduce in the parent process ({not_reproduced} runs tried): the outcome depends on what ran before in the process')
+                    break
+                continue
             key = mod.finding_key(case, res, kind) if hasattr(mod, 'finding_key') else None
             ent = known_entry(prop, key)
             if ent is not None:
@@ -365,12 +373,14 @@ def run_check(prop, tier, seed, runs=None, workers=None, wall_cap=None, write_ev
             small, tried = minimise(mod, case, kind, budget_s=min(float(cfg.get('min_budget', 40)), left))
             # a minimised case must not drift into a known finding
             rs = execute_guarded(mod, small)
-            if hasattr(mod, 'finding_key') and known_entry(prop, mod.finding_key(small, rs, kind)) is not None:
+            if not same_violation(rs, kind) or (hasattr(mod, 'finding_key') and known_entry(prop, mod.finding_key(small, rs, kind)) is not None):
                 small, rs = case, res
             path = write_replay(prop, seed, i, small, rs, kind, minimised_from=digest_of(case))
             ok, outp = replay_in_fresh_interpreter(path)
             if not ok:
-                harness_errors.append(f'replay of {path} did not reproduce in a fresh interpreter:\n{outp}')
+                # not reported: a violation is only claimed with a replay file that reproduces it in a fresh process
+                unverified.append(f'kind {kind} run {i}: replay of {path} did not reproduce in a fresh interpreter:\n{outp}')
+                break
             v = next(v for v in rs.violations if v['kind'] == kind)
             print(f"# violation kind={kind} run={i} ({len(idxs)} runs) minimise_tried={tried}: {v['detail'][:400]}")
             print(f'VIOLATION property={prop} replay={path}', flush=True)
@@ -415,11 +425,19 @@ def run_check(prop, tier, seed, runs=None, workers=None, wall_cap=None, write_ev
         'wall_s': round(wall, 2),
         'violations': len(reported),
     }
+    if unverified:
+        # Outcomes that could not be reproduced in isolation. If at least one violation WAS verified (replay reproduced in a fresh
+        # process) they are only listed; otherwise nothing of this run can be believed and the run ends as a harness error.
+        print('# NOT REPRODUCED IN ISOLATION (outcome depends on process history - state carried between objects/runs?):')
+        for h in unverified[:5]: print('#   ' + h.replace('\n', '\n#   ')[:1200])
+        if not reported: harness_errors.extend(unverified)
     if harness_errors:
         print('# HARNESS ERROR(S):')
         for h in harness_errors[:5]: print('#   ' + h.replace('\n', '\n#   ')[:3000])
-        exit_code = 2
-    if write_evidence and exit_code != 2:
+        # a violation whose replay reproduced in a fresh process stands (exit 1) even if other runs broke the harness
+        # (a library that is broken badly enough can make harness code fail); without one, nothing of the run is believed
+        if not reported: exit_code = 2
+    if write_evidence and not harness_errors:
         os.makedirs(EVIDENCE, exist_ok=True)
         with open(os.path.join(EVIDENCE, f'{prop}.json'), 'w') as f:
             json.dump(ev, f, indent=1, sort_keys=True)
